@@ -277,6 +277,14 @@ def valid_async_history(rng, kind, tier, name, nops=None, cfg=None, allow_out_of
             r = rng.choice([tr.lo, tr.hi, tr.orig]) if rng.chance(0.3) else rng.loguniform(tr.lo, tr.hi) if tr.hi > tr.lo else tr.orig
             r = min(max(r, tr.lo), tr.hi)
             ramp = rng.chance(0.5)
+            if rng.chance(0.25):
+                # a second call with a value already in the state (current target or ratio), other ramp flag
+                r = rng.choice([tr.target, tr.ratio])
+                ramp = (tr.ratio == tr.target) if rng.chance(0.5) else (not ramp)
+            if rng.chance(0.2):
+                lines.append("SETRATIO x=%s ramp=%d" % (f64hex(r), int(not ramp)))
+                tr.set_ratio(r, not ramp)
+                meta['ops'].append({'op': 'setratio', 'ratio': r, 'ramp': (not ramp)})
             lines.append("SETRATIO x=%s ramp=%d" % (f64hex(r), int(ramp)))
             tr.set_ratio(r, ramp)
             ann.update(ratio=r, ramp=ramp)
